@@ -22,7 +22,9 @@ def q(r) -> float:
 class PlotAdapter(Adapter):
     name = "PhystPlot"
 
-    def __init__(self, pe: PosEmb, vscale: float = 1.0):
+    def __init__(self, pe: PosEmb, vscale: float = 1.0, overrides: int = 0):
+        # overrides: 0 - labels come from the metadata; 1 - title suppressed (""), x label replaced; 2 - title replaced, labels suppressed
+        self.overrides = overrides
         self.pe, self.vscale = pe, vscale
         import matplotlib
         matplotlib.use("Agg")
@@ -34,6 +36,17 @@ class PlotAdapter(Adapter):
 
     def initial(self, state):
         return {}
+
+    def _ovr(self, two_d):
+        if self.overrides == 1:
+            return {"title": "", "xlabel": "XL"}
+        if self.overrides == 2:
+            return {"title": "TT", "xlabel": "", **({"ylabel": ""} if two_d else {})}
+        return {}
+
+    def _labels(self, want_x, want_y, want_t):
+        o = self._ovr(want_y is not None)
+        return o.get("xlabel", want_x), o.get("ylabel", want_y), o.get("title", want_t)
 
     def _build(self, s):
         if "bins" in s:
@@ -93,7 +106,7 @@ class PlotAdapter(Adapter):
                                   "width": list(map(float, tr.width)) if getattr(tr, "width", None) is not None else None,
                                   "mode": getattr(tr, "mode", None), "name": tr.name}
                 else:
-                    ax = h.plot(kind, backend="matplotlib", **kw)
+                    ax = h.plot(kind, backend="matplotlib", **kw, **self._ovr(False))
                     obs["ret"] = self._mpl_marks(ax, kind)
                     self.plt.close(ax.figure)
             elif action == "Plot2D":
@@ -107,7 +120,7 @@ class PlotAdapter(Adapter):
                     obs["ret"] = {"z": np.asarray(tr.z, dtype=float).tolist(), "x": None if tr.x is None else list(map(float, tr.x)),
                                   "y": None if tr.y is None else list(map(float, tr.y))}
                 elif kind == "map":
-                    ax = h.plot("map", backend="matplotlib", density=density, show_zero=show_zero, show_colorbar=False)
+                    ax = h.plot("map", backend="matplotlib", density=density, show_zero=show_zero, show_colorbar=False, **self._ovr(True))
                     obs["ret"] = {"rects": [(float(p.get_x()), float(p.get_y()), float(p.get_width()), float(p.get_height()),
                                              [float(c) for c in p.get_facecolor()]) for p in ax.patches],
                                   "xlabel": ax.get_xlabel(), "ylabel": ax.get_ylabel(), "title": ax.get_title()}
@@ -277,6 +290,8 @@ class PlotAdapter(Adapter):
                         fail("error_bars", exp, segs)
                 want_x = f"ax{s['axis']}" if s["axis"] else "axis0"
                 want_t = f"title{s['name']}" if s["name"] else ""
+                if backend == "matplotlib":
+                    want_x, _y, want_t = self._labels(want_x, None, want_t)      # labels given in the call win, also empty ones
                 if r["xlabel"] != want_x or r["title"] != want_t:
                     fail("labels", [want_x, want_t], [r["xlabel"], r["title"]])
         elif action == "Plot2D":
@@ -307,8 +322,8 @@ class PlotAdapter(Adapter):
                             ok = False
                 if not ok:
                     fail("cells", want, got)
-                if (r["xlabel"], r["ylabel"], r["title"]) != ("xa", "ya", "t2"):
-                    fail("labels", ["xa", "ya", "t2"], [r["xlabel"], r["ylabel"], r["title"]])
+                if (r["xlabel"], r["ylabel"], r["title"]) != self._labels("xa", "ya", "t2"):
+                    fail("labels", list(self._labels("xa", "ya", "t2")), [r["xlabel"], r["ylabel"], r["title"]])
             else:
                 arr = np.array(r["array"], dtype=float)
                 nx, ny = len(s["xbins"]), len(s["ybins"])
